@@ -1,5 +1,291 @@
 package main
 
+import (
+	"crypto/aes"
+	"crypto/cipher"
+	"fmt"
+	"strings"
+
+	"github.com/koestler/go-victron/ble"
+	"github.com/koestler/go-victron/bleparser"
+)
+
 func runBleHandleSuite(suite string, rng *Rng, thorough bool, s *Sink) bool {
-	return false
+	if suite != "c19" {
+		return runCliSuite(suite, rng, thorough, s)
+	}
+	suiteC19(rng, thorough, s)
+	return true
+}
+
+func logField(logged, key string) (string, bool) {
+	i := strings.Index(logged, key)
+	if i < 0 {
+		return "", false
+	}
+	rest := logged[i+len(key):]
+	j := strings.IndexAny(rest, ",\n")
+	if j < 0 {
+		j = len(rest)
+	}
+	return rest[:j], true
+}
+
+// handleReal: the real handler's observable behaviour, canonicalised from what it logs
+func handleReal(key, raw []byte) (out string, plain []byte, logged string) {
+	logged, panicked := ble.VerifHandle(key, raw, false)
+	if panicked {
+		return "PANIC", nil, logged
+	}
+	switch {
+	case strings.Contains(logged, "len(rawBytes) is to low"):
+		return "ignored", nil, logged
+	case strings.Contains(logged, "cannot create aes cipher"):
+		return "cipher-error", nil, logged
+	}
+	ph, ok := logField(logged, "decryptedBytes=")
+	if !ok {
+		return "no-plaintext-logged", nil, logged
+	}
+	plain = unHEX(strings.ToUpper(ph))
+	out = "plain:" + strings.ToUpper(ph)
+	switch {
+	case strings.Contains(logged, "solar charger record="):
+		i := strings.Index(logged, "solar charger record=")
+		txt := strings.TrimSuffix(logged[i+len("solar charger record="):], "\n")
+		rec, err := bleparser.DecodeSolarChargeRecord(plain)
+		if err != nil || fmt.Sprintf("%#v", rec) != txt {
+			return out + ";rec-differs-from-decoder:" + txt, plain, logged
+		}
+		return out + ";rec:" + strings.ReplaceAll(renderRecord(rec), ";", ","), plain, logged
+	case strings.Contains(logged, "cannot decode solar charger record"):
+		switch {
+		case strings.Contains(logged, "inp too short"):
+			return out + ";err:too-short", plain, logged
+		case strings.Contains(logged, "enum value does not exist"):
+			return out + ";err:invalid-enum", plain, logged
+		}
+		return out + ";err:other", plain, logged
+	}
+	return out + ";none", plain, logged
+}
+
+// refPlain: AES-CTR with the standard library, from the property text: bytes 8.. decrypted under the key
+// with the little-endian 16-bit nonce of bytes 5-6 as initial counter block
+func refPlain(key, raw []byte) ([]byte, bool) {
+	block, err := aes.NewCipher(key)
+	if err != nil {
+		return nil, false
+	}
+	iv := make([]byte, 16)
+	iv[0], iv[1] = raw[5], raw[6]
+	enc := raw[8:]
+	out := make([]byte, len(enc))
+	cipher.NewCTR(block, iv).XORKeyStream(out, enc)
+	return out, true
+}
+
+func encryptFor(key []byte, nonce uint16, plain []byte) []byte {
+	block, _ := aes.NewCipher(key)
+	iv := make([]byte, 16)
+	iv[0], iv[1] = byte(nonce), byte(nonce>>8)
+	out := make([]byte, len(plain))
+	cipher.NewCTR(block, iv).XORKeyStream(out, plain)
+	return out
+}
+
+func suiteC19(rng *Rng, thorough bool, s *Sink) {
+	emit := func(tag string, key, raw []byte) {
+		out, plain, logged := handleReal(key, raw)
+		op := fmt.Sprintf("BH %s %s", hexOrDash(key), hexOrDash(raw))
+		s.Line(tag, op, out)
+		// the property, directly
+		viol := func(w string) { s.Violate(op, out, w) }
+		if out == "PANIC" {
+			viol(fmt.Sprintf("advertisement handling panics (payload %d bytes, key %d bytes)", len(raw), len(key)))
+			return
+		}
+		if len(raw) < 9 {
+			if out != "ignored" {
+				viol("a payload too short to hold the 8-byte header and data must be ignored")
+			}
+			return
+		}
+		want, ok := refPlain(key, raw)
+		if !ok {
+			if out != "cipher-error" {
+				viol("an invalid key length must be reported, not used")
+			}
+			return
+		}
+		if string(want) != string(plain) {
+			viol(fmt.Sprintf("plaintext %X is not the AES-CTR decryption %X of bytes 8.. under the key with nonce %02X%02X", plain, want, raw[6], raw[5]))
+		}
+		if raw[4] == 0x01 {
+			rec, err := bleparser.DecodeSolarChargeRecord(want)
+			exp := ""
+			if err != nil {
+				exp = ";err:" + errKind(err)
+			} else {
+				exp = ";rec:" + strings.ReplaceAll(renderRecord(rec), ";", ",")
+			}
+			if !strings.HasSuffix(out, exp) {
+				viol(fmt.Sprintf("type 0x01 record must be decoded exactly as the solar-charger decoder decodes the plaintext (%s), got %s", exp, out))
+			}
+		} else if strings.Contains(logged, "solar charger") {
+			viol("a record of another type was handed to the solar charger decoder")
+		}
+	}
+	keys := [][]byte{make([]byte, 16), rng.Bytes(16), rng.Bytes(24), rng.Bytes(32)}
+	// payload lengths 0..64 x contents
+	for l := 0; l <= 64; l++ {
+		for c := 0; c < 3; c++ {
+			raw := rng.Bytes(l)
+			if c == 1 {
+				for i := range raw {
+					raw[i] = 0
+				}
+			}
+			if l > 4 {
+				raw[4] = []byte{1, 1, 2, 0x0A}[rng.Intn(4)]
+			}
+			emit("length", keys[(l+c)%len(keys)], raw)
+		}
+	}
+	// valid solar charger advertisements: plaintext records of length 12..16 encrypted under the key
+	n := 400
+	if thorough {
+		n = 8000
+	}
+	for i := 0; i < n; i++ {
+		key := keys[rng.Intn(len(keys))]
+		pl := rng.Bytes(12 + rng.Intn(5))
+		if i%8 == 0 {
+			pl = rng.Bytes(rng.Intn(12)) // too short for the decoder: must be rejected, not decoded from padding
+		}
+		if i%3 != 0 {
+			pl0 := []byte{0, 2, 3, 4, 5, 7, 245, 247, 252}[rng.Intn(9)]
+			if len(pl) > 1 {
+				pl[0], pl[1] = pl0, []byte{0, 2, 17, 18, 33}[rng.Intn(5)]
+			}
+		}
+		nonce := uint16(rng.U64())
+		hdr := []byte{0x10, 0x02, 0x53, 0xA0, 0x01, byte(nonce), byte(nonce >> 8), key[0]}
+		emit("solar", key, append(hdr, encryptFor(key, nonce, pl)...))
+	}
+	// key lengths 0..40 (valid: 16, 24, 32), nil key
+	raw := append([]byte{0x10, 0x02, 0x53, 0xA0, 0x01, 0x34, 0x12, 0xAB}, rng.Bytes(14)...)
+	for kl := 0; kl <= 40; kl++ {
+		emit("key-length", rng.Bytes(kl), raw)
+	}
+	emit("key-length", nil, raw)
+	// nonces: all 65536 on one payload (thorough), a stride otherwise
+	step := 97
+	if thorough {
+		step = 1
+	}
+	key := keys[1]
+	for nn := 0; nn < 65536; nn += step {
+		r := append([]byte{0x10, 0x02, 0x53, 0xA0, 0x01, byte(nn), byte(nn >> 8), key[0]}, raw[8:]...)
+		emit("nonce", key, r)
+	}
+	// all 256 record types
+	for t := 0; t < 256; t++ {
+		r := append([]byte(nil), raw...)
+		r[4] = byte(t)
+		emit("record-type", key, r)
+	}
+	// longer payloads (several cipher blocks)
+	for l := 24; l <= 80; l += 3 {
+		r := append([]byte{0x10, 0x02, 0x53, 0xA0, byte(l % 3), 0x01, 0x00, 0}, rng.Bytes(l-8)...)
+		emit("multi-block", keys[l%len(keys)], r)
+	}
+	// padding
+	for l := 0; l <= 48; l++ {
+		for _, bs := range []int{16, 1, 2, 7, 8, 32, 255} {
+			data := rng.Bytes(l)
+			out := "PANIC"
+			func() {
+				defer func() { recover() }()
+				out = HEX(ble.PKCS7Padding(append([]byte(nil), data...), bs))
+			}()
+			op := fmt.Sprintf("PK %s %d", hexOrDash(data), bs)
+			s.Line("pkcs7", op, out)
+			p := len(out)/2 - l
+			okPad := out != "PANIC" && p >= 1 && p <= bs && (l+p)%bs == 0 && strings.HasPrefix(out, HEX(data))
+			if okPad {
+				for _, b := range unHEX(out)[l:] {
+					if int(b) != p {
+						okPad = false
+					}
+				}
+			}
+			if !okPad {
+				s.Violate(op, out, fmt.Sprintf("padding of %d bytes to block size %d must append between 1 and %d bytes, each equal to the pad length, reaching a multiple of the block size", l, bs, bs))
+			}
+		}
+	}
+	// MAC matching
+	macs := [][]byte{{0xd4, 0x9d, 0xd2, 0x92, 0x62, 0x02}, {0xd4, 0x9d}, {}, {0xaa, 0xbb, 0xcc, 0xdd, 0xee, 0xff}}
+	addrs := []string{"D4:9D:D2:92:62:02", "d4:9d:d2:92:62:02", "D4:9D:D2:92:62:03", "D4:9D", "D4:9D:ZZ", "D4:9D:D", "", ":", "ZZ", "AA:BB:CC:DD:EE:FF", "AABBCCDDEEFF", "AA:BB:CC:DD:EE:F", "AA:BB:CC:DD:EE:FG",
+		"D4:9D:D2:92:62:02:00", "0xD4:9D", "D4-9D", " D4:9D", "d49d", "D4:9d:d2:92:62:02\n"}
+	for i := 0; i < 60; i++ {
+		b := rng.Bytes(rng.Intn(7))
+		var parts []string
+		for _, x := range b {
+			parts = append(parts, fmt.Sprintf("%02X", x))
+		}
+		a := strings.Join(parts, ":")
+		if i%4 == 0 && len(a) > 0 {
+			a = a[:len(a)-1]
+		}
+		if i%5 == 0 {
+			a = strings.ToLower(a)
+		}
+		addrs = append(addrs, a)
+	}
+	for _, a := range addrs {
+		for _, set := range [][][]byte{macs, {macs[1], macs[0]}, {macs[2]}, {macs[3], macs[3]}, {}} {
+			idx, panicked := ble.VerifMatch(set, a)
+			out := fmt.Sprintf("%d", idx)
+			if panicked {
+				out = "PANIC"
+			}
+			var ms []string
+			for _, m := range set {
+				if len(m) == 0 {
+					ms = append(ms, "e") // an empty MAC
+				} else {
+					ms = append(ms, HEX(m))
+				}
+			}
+			mstr := strings.Join(ms, ",")
+			if len(ms) == 0 {
+				mstr = "-"
+			}
+			op := fmt.Sprintf("BM %s %s", hexOrDash([]byte(a)), mstr)
+			s.Line("mac", op, out)
+			// the property: matched exactly when the colon-separated hex address equals the configured MAC
+			want := -1
+			clean := strings.ReplaceAll(a, ":", "")
+			wellFormed := len(clean)%2 == 0
+			for _, c := range clean {
+				if hexVal(byte(c)) < 0 || c > 127 {
+					wellFormed = false
+				}
+			}
+			if wellFormed {
+				dec := unHEX(clean)
+				for i, m := range set {
+					if string(m) == string(dec) {
+						want = i
+						break
+					}
+				}
+			}
+			if idx != want {
+				s.Violate(op, out, fmt.Sprintf("address %q against MACs %s: matched device %d, want %d", a, mstr, idx, want))
+			}
+		}
+	}
 }
